@@ -64,7 +64,7 @@ def code_end(ctx):
         return
     body = facts.bodies[new[0]]
     where = "%s:%d (new)" % (body["span"][0], body["span"][1])
-    empty = facts.method("axecutor::Axecutor", "empty")["path"]
+    empty = ctx.roles.hook_roles()[4]
 
     def icpt(I, path, frame, t, name, args):
         if name == empty:
@@ -345,7 +345,7 @@ def writers(ctx):
                     if okw and is_true:
                         ck.ok("C11.writers", inst)
                     elif not is_true and owner not in () and not (val[0] == "use" and val[1][0] == "k" and val[1][1].get("v") == 0
-                                                                     and b["name"] == "empty"):
+                                                                     and b["path"] == ctx.roles.hook_roles()[4]):
                         ck.violation("C11.writers", inst, "stores a non-constant/false value to finished",
                                      where=F.site_str(b, st[3]), what="finished can be cleared: execution could resume after finishing")
                     elif not okw:
